@@ -35,3 +35,4 @@ def run(ctx):
     R3.r03_10_registered_is_given(ctx, 'R03.10')
     from . import helpers_rules as H
     H.r16_1_purity(ctx, 'R03.9', roots=['yatiml.recognizer:Recognizer.recognize'], what='recognition (every candidate must see the same node)')
+    R3.r08_14_verdict_is_a_set(ctx, 'R03.11')
